@@ -1,14 +1,20 @@
 package main
 
 import (
+	"context"
 	"fmt"
+	"io"
+	"io/ioutil"
 	"math/rand"
+	"os"
 	"sync"
 	"sync/atomic"
 	"time"
 
 	"github.com/pingcap/kvproto/pkg/metapb"
+	"github.com/pingcap/kvproto/pkg/pdpb"
 	"github.com/tikv/pd/server/config"
+	"google.golang.org/grpc/metadata"
 	"verif/harness/lib/hist"
 	"verif/harness/lib/kvx"
 	"verif/harness/lib/srv"
@@ -19,17 +25,21 @@ import (
 // cache reset: what a member does when it becomes leader (fresh cache filled from storage)
 
 func (h *harness) reloadCheck(t *lightTarget, faulted bool, base map[string]interface{}) {
-	r := h.r
 	before := t.Observe()
 	nt, err := t.Reload()
 	if err != nil {
-		r.Inconclusive("reload: %v", err)
+		h.r.Inconclusive("reload: %v", err)
 		return
 	}
 	after := nt.Observe()
 	nt.Close()
+	h.judgeReload(before, after, faulted, "reload-from-storage:light", base)
+}
+
+func (h *harness) judgeReload(before, after *obs, faulted bool, mode string, base map[string]interface{}) {
+	r := h.r
 	r.Count("cache_reloads_from_storage", 1)
-	wit := map[string]interface{}{"mode": "reload-from-storage:light", "storage_faults_before": faulted, "before": before.describe(), "after": after.describe()}
+	wit := map[string]interface{}{"mode": mode, "storage_faults_before": faulted, "before": before.describe(), "after": after.describe()}
 	for k, v := range base {
 		wit[k] = v
 	}
@@ -517,4 +527,217 @@ func (h *harness) leaderChange(rng *rand.Rand, cycles int) {
 	}
 	h.fold(st, nil)
 	h.report(fs, finals, 6, map[string]interface{}{"world": p.describe(), "note": "final heartbeats one at a time after heartbeats raced leader changes on a real server"}, "sequential-after-leader-change:full-server")
+}
+
+// ---------------------------------------------------------------------------------------------
+// region storage (lifecycle): the storage a real server uses — leveldb behind a write batch with a
+// background flush — under heartbeats handled one at a time; then an explicit flush, and a shutdown
+// the way pd-server does it (server context cancelled BEFORE the storage is closed) followed by a
+// start from disk.
+
+func (h *harness) regionStorageWorlds(rng *rand.Rand, n int) {
+	r := h.r
+	for i := 0; i < n; i++ {
+		p := genParams(rng, 12, 8, 140, 1, false)
+		p.Plan.StaleP, p.Plan.DropP = 0.05, 0.05
+		w, plan, err := p.build()
+		if err != nil {
+			r.Inconclusive("world simulator invariant broken: %v", err)
+			return
+		}
+		dir, err := ioutil.TempDir("", "verif_c06_rs")
+		if err != nil {
+			r.Inconclusive("temp dir: %v", err)
+			return
+		}
+		t, err := newLightRS(p.Cfg.Stores, dir)
+		if err != nil {
+			os.RemoveAll(dir)
+			r.Inconclusive("region storage: %v", err)
+			return
+		}
+		snaps := snapsOf(plan)
+		fs, st := judgeSeq(t, snaps, false)
+		r.Eval(1)
+		r.Count("worlds_region_storage", 1)
+		h.fold(st, w)
+		if key, ok := outcomeKey("rs", st); ok {
+			r.Distinct(key)
+		}
+		base := map[string]interface{}{"world": p.describe(), "storage": "core.NewStorage(kv, WithRegionStorage(leveldb)) switched to region storage"}
+		h.report(fs, snaps, p.Cfg.Stores, base, "sequential:light:region-storage")
+		clean := len(fs) == 0
+		// displaced regions are gone from storage once the write batch has been flushed
+		if err := t.rs.FlushRegion(); err != nil {
+			r.Inconclusive("FlushRegion: %v", err)
+		}
+		before := t.Observe()
+		for id := range st.displaced {
+			if _, served := before.ByID[id]; served {
+				continue
+			}
+			if t.Loadable(id) {
+				wit := map[string]interface{}{"mode": "region-storage-after-flush:light", "region": id, "state": before.describe()}
+				for k, v := range base {
+					wit[k] = v
+				}
+				r.Violation("displaced-region-still-stored:region-storage-after-flush", fmt.Sprintf("heartbeats were handled one at a time; region %d was displaced from the cache by an accepted newer overlapping region (its record was deleted from the region storage while a copy still sat in the write batch); after the batch was flushed the displaced region is loadable from storage again", id), wit)
+				break
+			}
+		}
+		// shutdown + start from disk
+		nt, err := t.RestartRS(i%2 == 0)
+		if err != nil {
+			r.Inconclusive("region storage restart: %v", err)
+			os.RemoveAll(dir)
+			return
+		}
+		if clean {
+			after := nt.Observe()
+			mode := "region-storage-close-reopen:light"
+			if i%2 == 0 {
+				mode = "region-storage-context-cancelled-before-close-reopen:light"
+			}
+			missing := 0
+			for id := range before.ByID {
+				if _, ok := after.ByID[id]; !ok {
+					missing++
+				}
+			}
+			r.Count("region_storage_served_region_missing_after_restart", int64(missing))
+			h.judgeReload(before, after, false, mode, base)
+		}
+		nt.CloseRS()
+		os.RemoveAll(dir)
+	}
+}
+
+// ---------------------------------------------------------------------------------------------
+// the real gRPC entry point: Server.RegionHeartbeat on a stream. The handler refuses some requests
+// before they reach the heartbeat handler ("invalid request leader", "invalid request region",
+// "zero region peer count", unknown store): whatever it answers, such a request changes nothing.
+
+type fakeHBStream struct {
+	ctx  context.Context
+	in   chan *pdpb.RegionHeartbeatRequest
+	idle chan struct{}
+	mu   sync.Mutex
+	sent []*pdpb.RegionHeartbeatResponse
+}
+
+func (f *fakeHBStream) Recv() (*pdpb.RegionHeartbeatRequest, error) {
+	select {
+	case f.idle <- struct{}{}:
+	default:
+	}
+	req, ok := <-f.in
+	if !ok {
+		return nil, io.EOF
+	}
+	return req, nil
+}
+func (f *fakeHBStream) Send(r *pdpb.RegionHeartbeatResponse) error {
+	f.mu.Lock()
+	f.sent = append(f.sent, r)
+	f.mu.Unlock()
+	return nil
+}
+func (f *fakeHBStream) SetHeader(metadata.MD) error  { return nil }
+func (f *fakeHBStream) SendHeader(metadata.MD) error { return nil }
+func (f *fakeHBStream) SetTrailer(metadata.MD)       {}
+func (f *fakeHBStream) Context() context.Context     { return f.ctx }
+func (f *fakeHBStream) SendMsg(interface{}) error    { return nil }
+func (f *fakeHBStream) RecvMsg(interface{}) error    { return nil }
+
+// streamSend pushes one request through a fresh stream of the real handler and waits (bounded) until
+// the handler has finished with it (it asked for the next request, or returned).
+func streamSend(t *fullTarget, req *pdpb.RegionHeartbeatRequest) (handlerErr error, processed bool) {
+	f := &fakeHBStream{ctx: context.Background(), in: make(chan *pdpb.RegionHeartbeatRequest), idle: make(chan struct{}, 1)}
+	done := make(chan error, 1)
+	go func() { done <- t.m.Srv.RegionHeartbeat(f) }()
+	select {
+	case <-f.idle: // first Recv
+	case <-time.After(5 * time.Second):
+		return nil, false
+	}
+	f.in <- req
+	select {
+	case <-f.idle: // the handler came back for the next request
+		close(f.in)
+		select {
+		case handlerErr = <-done:
+		case <-time.After(5 * time.Second):
+			return nil, false
+		}
+		return handlerErr, true
+	case handlerErr = <-done: // the handler gave up on the stream
+		return handlerErr, true
+	case <-time.After(5 * time.Second):
+		return nil, false
+	}
+}
+
+func (h *harness) streamMalformed(t *fullTarget, idBase, verBase uint64) {
+	r := h.r
+	good := mkSnap(0, idBase+1, "sm-a", "sm-c", verBase+1, 1, 6, "stream-valid")
+	good.R.Peers = []world.Peer{{ID: idBase + 11, Store: 1}, {ID: idBase + 12, Store: 2}, {ID: idBase + 13, Store: 3}}
+	good.R.Leader = idBase + 11
+	req := good.Request()
+	req.Header = t.m.Header()
+	t.addID(good.R.ID)
+	if _, ok := streamSend(t, req); !ok {
+		r.Inconclusive("gRPC stream: the handler did not take a valid heartbeat")
+		return
+	}
+	o := t.Observe()
+	if v, ok := o.ByID[good.R.ID]; !ok || v.Ver != good.R.Version {
+		r.Inconclusive("gRPC stream: a valid heartbeat through the real stream handler is not served (harness problem)")
+		return
+	}
+	r.Count("grpc_stream_valid_heartbeats", 1)
+	type mal struct {
+		name      string
+		mut       func(q *pdpb.RegionHeartbeatRequest)
+		ambiguous bool
+	}
+	cases := []mal{
+		{"no-leader", func(q *pdpb.RegionHeartbeatRequest) { q.Leader = nil }, false},
+		{"leader-without-ids", func(q *pdpb.RegionHeartbeatRequest) { q.Leader = &metapb.Peer{} }, false},
+		{"leader-on-unknown-store", func(q *pdpb.RegionHeartbeatRequest) { q.Leader = &metapb.Peer{Id: q.Leader.Id, StoreId: 4242} }, false},
+		{"region-id-0", func(q *pdpb.RegionHeartbeatRequest) { q.Region.Id = 0 }, false},
+		{"no-region", func(q *pdpb.RegionHeartbeatRequest) { q.Region = nil }, false},
+		{"zero-peers", func(q *pdpb.RegionHeartbeatRequest) { q.Region.Peers = nil }, false},
+		{"zero-peers-empty-slice", func(q *pdpb.RegionHeartbeatRequest) { q.Region.Peers = []*metapb.Peer{} }, false},
+		{"wrong-cluster-id", func(q *pdpb.RegionHeartbeatRequest) {
+			q.Header = &pdpb.RequestHeader{ClusterId: q.Header.ClusterId + 1}
+		}, false},
+		{"leader-not-in-peers", func(q *pdpb.RegionHeartbeatRequest) { q.Leader = &metapb.Peer{Id: 987654, StoreId: 1} }, true},
+	}
+	for _, c := range cases {
+		// a NEWER version of the served region over a wider range, so that handling it would show
+		s := mkSnap(1, good.R.ID, "sm-a", "sm-e", verBase+5, 2, 7, "stream-malformed:"+c.name)
+		s.R.Peers, s.R.Leader = good.R.Peers, good.R.Leader
+		q := s.Request()
+		q.Header = t.m.Header()
+		c.mut(q)
+		before := t.Observe()
+		herr, ok := streamSend(t, q)
+		if !ok {
+			r.Inconclusive("gRPC stream: handler stuck on %s", c.name)
+			return
+		}
+		after := t.Observe()
+		r.Eval(1)
+		r.Count("grpc_stream_malformed_heartbeats", 1)
+		r.Distinct("stream|" + c.name)
+		if c.ambiguous {
+			r.Count("skipped_ambiguous", 1) // pd documents no convention for it
+			// bring the region back to a known state for the next case is not needed: ids are fresh per run
+			continue
+		}
+		if !sameServed(before.ByID, after.ByID) || !sameStored(before.Stored, after.Stored) {
+			r.Violation("malformed-heartbeat-changed-state:"+c.name, fmt.Sprintf("a region heartbeat the gRPC handler documents as invalid (%s; handler returned %v) changed the served or stored regions", c.name, herr),
+				map[string]interface{}{"mode": "grpc-stream:full-server", "case": c.name, "before": before.describe(), "after": after.describe()})
+		}
+	}
 }
